@@ -58,8 +58,9 @@ type Case struct {
 	Allowed  bool             `json:"allowed"`
 	Payload  int              `json:"payload"`
 	Seg      string           `json:"seg"`
-	Split    int              `json:"split"`     // header split offset (-1 none)
-	WireNeed int              `json:"wire_need"` // extra scripted matcher on the wire (forces prefetch)
+	Split    int              `json:"split"`          // header split offset (-1 none)
+	WireNeed int              `json:"wire_need"`      // extra scripted matcher on the wire (forces prefetch)
+	Flat     bool             `json:"flat,omitempty"` // address route and a data-hungry route in the same list as the proxy_protocol route
 	Version  string           `json:"version,omitempty"`
 }
 
@@ -218,8 +219,25 @@ func recvCase(c *fw.Ctx, r *rand.Rand, i int) {
 	routes = append(routes, map[string]any{
 		"handle": []any{map[string]any{"handler": "verif_span", "name": "other", "expand": expand}, map[string]any{"handler": "verif_sink", "name": "sink", "bufsize": 1500}}})
 
-	routes = []any{map[string]any{"match": []any{set}, "handle": []any{ppCfg,
-		map[string]any{"handler": "subroute", "matching_timeout": "20s", "routes": routes}}}}
+	flat := false
+	if has && cs.WireNeed == 0 && cs.Allowed && len(h.TLVs) == 0 && h.V1Tail == "" {
+		if srcIP, _, _ := net.SplitHostPort(src); srcIP != peerIP && r.Intn(3) == 0 {
+			flat = true
+		}
+	}
+	if flat {
+		// Flat layout: the address route and a data-hungry route follow the proxy_protocol route in the same list.
+		// While the header is incomplete the address route is decided (no) against the real peer and the third route
+		// is undecided; once the handler has run, the address route has to be evaluated again, on the declared address.
+		third := map[string]any{
+			"match":  []any{map[string]any{"verif_m3": map[string]any{"id": "hungry", "need": 64, "at": 0, "eq": 256, "neg": true, "pattern": "peek"}}},
+			"handle": []any{map[string]any{"handler": "verif_span", "name": "other", "expand": expand}, map[string]any{"handler": "verif_sink", "name": "sink", "bufsize": 1500}}}
+		routes = []any{map[string]any{"match": []any{set}, "handle": []any{ppCfg}}, routes[0], third}
+	} else {
+		routes = []any{map[string]any{"match": []any{set}, "handle": []any{ppCfg,
+			map[string]any{"handler": "subroute", "matching_timeout": "20s", "routes": routes}}}}
+	}
+	cs.Flat = flat
 	app, err := drive.StartApp(drive.J(routes), "20s")
 	if err != nil {
 		c.Violation("C12 config rejected", err.Error(), cs)
@@ -330,7 +348,7 @@ func recvCase(c *fw.Ctx, r *rand.Rand, i int) {
 		}
 	}
 	c.Obs("recv_cases", 1)
-	c.Case(fw.Hash("recv", class, cs.Allowed, cs.Allow != nil, cs.Payload, cs.Seg, cs.Split, cs.WireNeed), nontrivial, func() any { return cs })
+	c.Case(fw.Hash("recv", class, cs.Allowed, cs.Allow != nil, cs.Payload, cs.Seg, cs.Split, cs.WireNeed, cs.Flat), nontrivial, func() any { return cs })
 }
 
 func sameAddr(a, b string) bool {
